@@ -52,6 +52,9 @@ pub enum CloseManner {
     /// TLS / SSH only: plain TCP FIN without a TLS close_notify or an SSH-level goodbye (a server
     /// process that was killed: the kernel closes its socket in an orderly way)
     FinOnly,
+    /// child process only: the process exits, but a helper it started lives on and still holds
+    /// the inherited stderr open (stdin and stdout are closed)
+    ExitLeavingHelper,
 }
 
 impl CloseManner {
@@ -61,6 +64,7 @@ impl CloseManner {
             CloseManner::ChannelClose => "channel-close",
             CloseManner::Abrupt => "abrupt",
             CloseManner::FinOnly => "fin-only",
+            CloseManner::ExitLeavingHelper => "exit-leaving-a-helper-that-holds-stderr",
         }
     }
 }
@@ -182,6 +186,7 @@ pub enum Conn {
 }
 
 pub const CLI_ABORT_MAGIC: &[u8] = b"\0VH-ABORT\0";
+pub const CLI_HELPER_MAGIC: &[u8] = b"\0VH-LEAVE-HELPER\0";
 
 impl Conn {
     /// one unit on the wire
@@ -297,7 +302,7 @@ impl Conn {
             },
             Conn::Ssh { handle, channel, join, rx, raw } => {
                 match manner {
-                    CloseManner::Clean => {
+                    CloseManner::Clean | CloseManner::ExitLeavingHelper => {
                         let _ = handle.eof(channel).await;
                     }
                     CloseManner::ChannelClose => {
@@ -343,6 +348,12 @@ impl Conn {
                 if manner == CloseManner::Abrupt {
                     let _ = s.write_all(CLI_ABORT_MAGIC).await;
                     let _ = s.flush().await;
+                }
+                if manner == CloseManner::ExitLeavingHelper {
+                    let _ = s.write_all(CLI_HELPER_MAGIC).await;
+                    let _ = s.flush().await;
+                    // give the relay time to start the helper and exit
+                    tokio::time::sleep(Duration::from_millis(60)).await;
                 }
                 drop(s);
             }
@@ -472,6 +483,18 @@ pub fn fake_cli_main(args: &[String]) -> i32 {
         match from_sock.read(&mut buf) {
             Ok(0) | Err(_) => return 0,
             Ok(n) => {
+                if buf[..n].ends_with(CLI_HELPER_MAGIC) {
+                    let _ = stdout.write_all(&buf[..n - CLI_HELPER_MAGIC.len()]);
+                    let _ = stdout.flush();
+                    // a helper that keeps nothing but the inherited stderr
+                    let _ = std::process::Command::new("sleep")
+                        .arg("25")
+                        .stdin(std::process::Stdio::null())
+                        .stdout(std::process::Stdio::null())
+                        .stderr(std::process::Stdio::inherit())
+                        .spawn();
+                    return 0;
+                }
                 if buf[..n].ends_with(CLI_ABORT_MAGIC) {
                     let _ = stdout.write_all(&buf[..n - CLI_ABORT_MAGIC.len()]);
                     let _ = stdout.flush();
